@@ -138,6 +138,9 @@ FORMS = {
     "count_list": "count([b, 0, b], a) >= 2",
     "find_list": "find(['x', b], a) == 1",
     "unique_pair": "length(List->unique([a, b])) == 1",
+    # list difference removes equal elements, whatever their representative
+    "list_minus": "length([b, 'keep', b] - [a]) == 1",
+    "list_minus_set": "length([b, 'keep'] - <<a>>) == 1",
     "map_get": "<<<identity(a) => 1>>>[b, 'nf']",
     "set_len": "length(<<a, b>>)",
     "map_len": "length(<<<identity(a) => 1, identity(b) => 2>>>)",
@@ -285,7 +288,9 @@ def explore_pairs(chunk):
                                    ("in_set", ab), ("in_list", ab),
                                    ("contains_list", ab),
                                    ("contains_set", ab), ("count_list", ab),
-                                   ("find_list", ab), ("unique_pair", ab)):
+                                   ("find_list", ab), ("unique_pair", ab),
+                                   ("list_minus", ab),
+                                   ("list_minus_set", ab)):
                     r = f.ev(name, a=a, b=b)
                     agg.count("steps")
                     if not (r[0] == "value" and
